@@ -407,6 +407,19 @@ pub fn eval_session_check(check: &str, case: &Case, replies: &[String]) -> Optio
             }
             res
         }
+        ["some-call-fails", kind] => {
+            if (0..case.ops.len()).any(|i| is_call(&case.ops[i]) && replies[i].starts_with(&format!("err {}", kind))) {
+                Ok(())
+            } else {
+                Err(format!("exceeding the cap was not reported: no host call failed with {}", kind))
+            }
+        }
+        ["no-call-fails", kind] => {
+            match (0..case.ops.len()).find(|&i| is_call(&case.ops[i]) && replies[i].starts_with(&format!("err {}", kind))) {
+                None => Ok(()),
+                Some(i) => Err(format!("op {} failed with {} although the cap is not exceeded", i, replies[i])),
+            }
+        }
         ["no-syntax-error"] => {
             let mut res = Ok(());
             for i in 0..case.ops.len() {
